@@ -76,6 +76,35 @@ def rand_comp(r, dim, k):
     return cons_list(cs) + " " + cgs_list(gs)
 
 
+def feas_con(r, dim, k, p0, allow_strict=True):
+    """a constraint of the shape the component kind represents, satisfied by the integer point p0"""
+    c = rand_con(r, dim, k, allow_strict).split(" ")
+    kind, a = c[0], [int(x) for x in c[2:]]
+    v = sum(x * y for x, y in zip(a, p0))
+    if kind == "=": b = -v
+    elif kind == ">": b = -v + r.choice([1, 1, 2, 3])
+    else: b = -v + r.choice([0, 0, 1, 2, 4])
+    return con(kind, b, a)
+
+
+def feas_cg(r, dim, p0):
+    m = r.choice([0, 1, 2, 2, 3, 3, 4, 5, 6]); a = rvec(r, dim)
+    v = sum(x * y for x, y in zip(a, p0))
+    return cg(m, -v + (m * r.randint(-2, 2) if m else 0), a)
+
+
+def feas_comp(r, dim, k, p0):
+    if k == "G":
+        gs = [feas_cg(r, dim, p0) for _ in range(r.choice([0, 1, 1, 2, 2, 3]))]
+        return cons_list([]) + " " + cgs_list(gs)
+    cs = [feas_con(r, dim, k, p0) for _ in range(r.choice([0, 1, 2, 2, 3, 4]))]
+    return cons_list(cs) + " " + cgs_list([])
+
+
+def some_comp(r, dim, k, p0, pfeas=0.7):
+    return feas_comp(r, dim, k, p0) if r.random() < pfeas else rand_comp(r, dim, k)
+
+
 def rand_expr(r, dim):
     return "%d %s" % (r.randint(-3, 3), " ".join(str(x) for x in rvec(r, dim)))
 
@@ -229,10 +258,11 @@ def reduce_case(r, cid, pair, pol):
     lines = ["case %s %s %s" % (cid, pair, pol), "new 0 %d %s" % (dim, r.choice(["universe", "universe", "universe", "empty"]))]
     if r.random() < 0.1:
         lines.append("setempty 0 %d" % r.choice([1, 2]))
+    p0 = [r.randint(-2, 2) for _ in range(dim)]
     if r.random() < 0.93:
-        lines.append("set 0 1 %s" % rand_comp(r, dim, kinds[0]))
+        lines.append("set 0 1 %s" % some_comp(r, dim, kinds[0], p0, 0.6))
     if r.random() < 0.93:
-        lines.append("set 0 2 %s" % rand_comp(r, dim, kinds[1]))
+        lines.append("set 0 2 %s" % some_comp(r, dim, kinds[1], p0, 0.6))
     lines.append("copy 1 0")
     lines.append("red 0")
     lines.append("red 0")
@@ -247,10 +277,12 @@ def ops_case(r, cid, pair, pol, steps):
     dim = r.choice([1, 2, 2, 2, 3])
     lines = ["case %s %s %s" % (cid, pair, pol)]
     dims = {}
+    p0 = [r.randint(-2, 2) for _ in range(dim)]
     for x in (0, 1):
         lines.append("new %d %d universe" % (x, dim)); dims[x] = dim
-        if r.random() < 0.85: lines.append("set %d 1 %s" % (x, rand_comp(r, dim, kinds[0])))
-        if r.random() < 0.85: lines.append("set %d 2 %s" % (x, rand_comp(r, dim, kinds[1])))
+        if r.random() < 0.85: lines.append("set %d 1 %s" % (x, some_comp(r, dim, kinds[0], p0, 0.8)))
+        if r.random() < 0.85: lines.append("set %d 2 %s" % (x, some_comp(r, dim, kinds[1], p0, 0.8)))
+        if x == 0 and r.random() < 0.5: p0 = [r.randint(-2, 2) for _ in range(dim)]
     for _ in range(steps):
         x = r.choice([0, 0, 1]); y = 1 - x
         u = r.random()
@@ -263,6 +295,26 @@ def ops_case(r, cid, pair, pol, steps):
             else: lines.append("qry %d is_empty" % x)
         else:
             lines.append("red %d" % x)
+    lines.append("end")
+    return lines
+
+
+def exchange_case(r, cid, pair, pol):
+    """constraint-only pairs under the Constraints / Shape_Preserving policies: each component carries information the
+    other lacks, the intersection is non-empty (or empty only through the combination)"""
+    kinds = KINDS[pair]
+    dim = r.choice([1, 2, 2, 3])
+    p0 = [r.randint(-2, 2) for _ in range(dim)]
+    lines = ["case %s %s %s" % (cid, pair, pol), "new 0 %d universe" % dim]
+    inconsistent = r.random() < 0.2
+    lines.append("set 0 1 %s" % feas_comp(r, dim, kinds[0], p0))
+    p1 = [x + r.choice([0, 4, -5]) for x in p0] if inconsistent else p0
+    lines.append("set 0 2 %s" % feas_comp(r, dim, kinds[1], p1))
+    lines.append("copy 1 0")
+    lines.append("red 0")
+    lines.append(rand_query(r, 0, 1, dim, kinds))
+    lines.append("red 0")
+    lines.append(rand_query(r, 1, 0, dim, kinds))
     lines.append("end")
     return lines
 
@@ -283,6 +335,9 @@ def make_cases(seed, n_shrink, n_reduce, n_ops, steps=5, start=0):
     for i in range(n_ops):
         pair = PAIRS[k % len(PAIRS)]; pol = POLICIES[(k // len(PAIRS) + i) % len(POLICIES)]; k += 1
         out += ops_case(r, "o%d" % cid, pair, pol, steps); cid += 1
+    cons_pairs = ["CN", "NN", "BC", "SC", "CN", "NN"]
+    for i in range(n_reduce // 2):
+        out += exchange_case(r, "x%d" % cid, cons_pairs[i % len(cons_pairs)], r.choice(["K", "K", "P"])); cid += 1
     return out
 
 
